@@ -162,9 +162,9 @@ var c01Rules = []c01Rule{
 	{id: "block-flatten", doc: "stmtlist.go:116-122 blocks merged into the parent, lexical declarations of an otherwise unused scope", kind: 'P',
 		t: []string{"{f(1);g(2)}", "if(a){f(1)}", "{let z=f(1)}", "{let z=f(1);g(z)}", "{const z=f(1)}", "{let z=f(1),y=g(2)}", "{let z}", "{let z=f(1)}{let z=g(2)}", "{class Z{}}", "{function z(){}}f(typeof z)", "{var z=1}f(z)", "{{f(1)}}", "{}f(1)", "{f(1)}g(2)", "if(a){let z=f(1)}", "if(a){let z=f(1)}else{let y=g(2)}", "for(;;){let z=f(1);break}",
 			"let z=1;{let z=2;f(z)}f(z)", "let z=1;{let z=f(2)}f(z)", "{let z=()=>z;f(typeof z)}", "function t(){{let z=f(1)}return 1}g(t())", "{let{z}=o1}", "{let[z]=[f(1)]}", "{let z=f(1);var y=z}g(y)", "l:{f(1);break l}", "{\"use strict\";f(1)}", "switch(a){case 1:{let z=f(1)}}", "try{let z=f(1)}catch(e){}", "x=()=>{{let z=f(1)}};x()", "if(a){function z(){}}else{f(typeof z)}"}, hit: `^f\(1\),g\(2\)$`},
-	{id: "else-function-flatten", doc: "stmtlist.go: a flattened else block takes its function declarations into the parent scope (K-C01-7)", kind: 'P',
-		t: []string{"f(typeof z);if(a)throw 1;else{function z(){}}", "\"use strict\";function t(p){if(p)return 1;else{function z(){}}return typeof z}f(t(a))", "function t(p){g(typeof z);if(p)return 1;else{function z(){}}return typeof z}f(t(a))",
-			"f(typeof z);if(a){function z(){}}else throw 1"}, known: "S11f-else-function"},
+	{id: "else-function-flatten", doc: "stmtlist.go: an else block with a function declaration is not flattened (96a3590)", kind: 'P',
+		t: []string{"f(typeof z);if(a)throw 1;else{function z(){}}", "function t(p){g(typeof z);if(p)return 1;else{function z(){}}return typeof z}f(t(a))",
+			"f(typeof z);if(a){function z(){}}else throw 1"}, hit: `throw 1;else\{function z\(\)\{\}\}`},
 	{id: "class-effects", doc: "stmtlist.go:118 / util.go hasSideEffects (64da31a): heritage, computed keys, static initialisers and static blocks of a class are effects", kind: 'P',
 		t: []string{"{class C{static s=f(1)}}", "if(a){class C{static s=f(1)}}", "{class C extends f(1){}}", "{class C{static{f(1)}}}", "{class C{[f(1)](){}}}", "{let z=class{static s=f(1)}}", "x=void class{static s=f(1)};g(x)"}, hit: `^\{class C\{static s=f\(1\)\}\}$`},
 	{id: "class-pure", doc: "stmtlist.go:118 a block with a lone class without heritage, computed keys and static initialisers is dropped", kind: 'P',
@@ -178,10 +178,50 @@ var c01Rules = []c01Rule{
 		gen: c01RuleLongVars, hit: `var v0=f\(0\),v1=f\(1\),v2=f\(2\)`},
 	{id: "rename-many", doc: "vars.go renamer: short names are handed out in frequency order and skip reserved words (`in` is the 168th, `do` the 281st, `if` the 1140th name of a scope)", kind: 'P',
 		gen: c01RuleManyBindings},
-	{id: "yield-undefined", doc: "js.go YieldExpr: yield undefined => yield (not when undefined is a local, K-C01-15 when it is captured from an enclosing function)", kind: 'P',
+	{id: "yield-undefined", doc: "js.go YieldExpr: yield undefined => yield (not when undefined is a local)", kind: 'P',
 		t: []string{"function*t(){yield undefined}f([...t()])", "function*t(undefined){yield undefined}f([...t(1)])", "function*t(){yield void 0;yield(undefined);yield}f([...t()])"}, hit: `function\*t\(\)\{yield\}`},
-	{id: "yield-undefined-captured", doc: "js.go YieldExpr: undefined captured from an enclosing function (K-C01-15)", kind: 'P',
-		t: []string{"function t(undefined){function*u(){yield undefined}return[...u()]}f(t(1))", "function t(undefined){return function*(){yield undefined}}f([...t(1)()])"}, known: "S17-yield-shadow-undefined"},
+	{id: "yield-undefined-captured", doc: "js.go YieldExpr: undefined captured from an enclosing function is kept (2f191c7)", kind: 'P',
+		t: []string{"function t(undefined){function*u(){yield undefined}return[...u()]}f(t(1))", "function t(undefined){return function*(){yield undefined}}f([...t(1)()])"}, hit: `function\*u\(\)\{yield undefined\}`},
+	{id: "strict-block-function", doc: "vars.go renamer / parse/v2 scopes: in strict code a function declaration in a block is block scoped, the renamer binds references outside the block to it (K-C01-16, renaming = C02)", kind: 'P',
+		t: []string{"\"use strict\";function t(p){{function z(){}}return typeof z}f(t(a))", "\"use strict\";function t(p){if(p)return 1;else{function z(){}}return typeof z}f(t(a))", "function t(p){\"use strict\";if(p){function z(){}}return typeof z}f(t(a))"}, known: "S18-strict-block-fn"},
+	{id: "else-flatten-nested", doc: "stmtlist.go declaresKeptNames: an else block with let/const/class is not merged into a scope that keeps its names — also when the if sits in a nested block, loop body, try block or switch clause, and in functions with `with` (names of enclosing scopes reused)", kind: 'P',
+		t: []string{"var x=\"global\";function t(p){for(;;){if(p){break}else{let x=2;g(x)}h(x);p=1}}t(0)",
+			"var x=\"global\";function t(p){for(;;){if(p){break}else{const x=2;g(x)}h(x);p=1}}t(0)",
+			"var x=\"global\";function t(p){for(;;){if(p){break}else{class x{};g(typeof x)}h(x);p=1}}t(0)",
+			"var x=\"global\";function t(p){while(1){if(p){return}else{let x=2;g(x)}h(x);p=1}}t(0)",
+			"var x=\"global\";function t(p){for(var i=0;i<2;i++){if(i){continue}else{let x=2;g(x)}h(x)}}t(0)",
+			"var x=\"global\";function t(p){{if(p){return}else{let x=2;g(x)}h(x)}}t(0)",
+			"var x=\"global\";function t(p){try{if(p){throw 1}else{let x=2;g(x)}h(x)}catch(e){k(e)}}t(0);t(1)",
+			"var x=\"global\";function t(p){switch(p){case 0:if(p){break}else{let x=2;g(x)}h(x)}}t(0)",
+			"var x=\"global\";function t(p){l:{if(p){break l}else{let x=2;g(x)}h(x)}}t(0)",
+			"var x=\"global\";function t(p){for(var q of[0,1]){if(q){break}else{let x=2;g(x)}h(x)}}t(0)",
+			"var x=\"global\";function t(p){for(;;){if(!p){let x=2;g(x)}else{break}h(x);p=1}}t(0)",
+			"function t(p){for(;;){let x=1;if(p){break}else{let x=2;g(x)}h(x);p=1}}t(0)",
+			"function t(p){{let x=1;if(p){return}else{let x=2;g(x)}h(x)}}t(0)",
+			"function t(p,x){for(;;){if(p){break}else{let x=2;g(x)}h(x);p=1}}t(0,\"param\")",
+			"var x=\"global\";function t(p,o){with(o){k(1)}for(;;){if(p){break}else{let x=2;g(x)}h(x);p=1}}t(0,{})",
+			"var x=\"global\";function t(p,o){with(o){for(;;){if(p){break}else{let x=2;g(x)}h(x);p=1}}}t(0,{})",
+			"var x=\"global\";x2=()=>{for(;;){if(a){break}else{let x=2;g(x)}h(x);a=1}};x2()",
+			"var x=\"global\";for(;;){if(a){break}else{let x=2;g(x)}h(x);a=1}",
+			"var x=\"global\";{if(a){}else{let x=2;g(x)}h(x)}",
+			"var x=\"global\";function t(p){for(;;){for(;;){if(p){break}else{let x=2;g(x)}h(x);p=1}break}}t(0)",
+			"var x=\"global\";class C{m(p){for(;;){if(p){break}else{let x=2;g(x)}h(x);p=1}}}new C().m(0)",
+			"var x=\"global\";function t(p){for(;;){if(p){break}else{let y=2;g(y)}h(x);p=1}}t(0)"}, hit: `break;else\{let x=2;g\(x\)\}h\(x\)`},
+	{id: "hoist-nested-target", doc: "vars.go hoistVars: the declaration that becomes the hoisting target may sit several blocks below the function scope; every block on the way must not reuse the hoisted names (AddUndeclared up to the function scope)", kind: 'P',
+		t: []string{"function t(p){var r=p+1;for(let i=0;i<2;i++){if(p){var a1=i,b1=2,c1=3;k(a1,b1,c1)}}return r}f(t(1))",
+			"function t(p){var r=p+1;for(let i=0;i<2;i++){{var a1=i,b1=2,c1=3;k(a1,b1,c1)}}return r}f(t(1))",
+			"function t(p){var r=p+1;try{let e1=p;if(p){var a1=e1,b1=2,c1=3;k(a1,b1,c1)}}catch(e){k(e)}return r}f(t(1))",
+			"function t(p){var r=p+1,s=p+2;for(let i=0;i<2;i++){for(let j=0;j<1;j++){if(p){var a1=i,b1=j,c1=3,d1=4;k(a1,b1,c1,d1)}}}return r+s}f(t(1))",
+			"function t(p){var r=p+1;{let m=p;{let n=m;{var a1=n,b1=2,c1=3;k(a1,b1,c1)}}}return r}f(t(1))",
+			"function t(p){var r=p+1;for(const i of[0,1]){if(p){var a1=i,b1=2,c1=3;k(a1,b1,c1)}}return r}f(t(1))",
+			"function t(p){var r=p+1;switch(p){case 1:{let i=p;if(p){var a1=i,b1=2,c1=3;k(a1,b1,c1)}}}return r}f(t(1))",
+			"function t(p){for(let i=0;i<2;i++){if(p){var a1=i,b1=2,c1=3;k(a1,b1,c1)}}var r=p+1;return r}f(t(1))",
+			"function t(p){var r=p+1,q2=r;for(let i=0;i<2;i++){let w=i;if(p){var a1=w,b1=2,c1=3;k(a1,b1,c1)}k(w)}return r+q2}f(t(1))",
+			"x2=p=>{var r=p+1;for(let i=0;i<2;i++){if(p){var a1=i,b1=2,c1=3;k(a1,b1,c1)}}return r};f(x2(1))"}, hit: `for\(let \w+=0`},
+	{id: "cond-comma-const", doc: "util.go optimizeCondExpr: isTruthy of the whole condition, not of its final value: (f(),true)?x:y keeps f()", kind: 'P',
+		t: []string{"x=(f(1),true)?b:c;g(x)", "x=(f(1),false)?b:c;g(x)", "x=(f(1),0)?b:c;g(x)", "x=(f(1),\"\")?b:c;g(x)", "x=(f(1),\"s\")?b:c;g(x)", "x=(f(1),null)?b:c;g(x)", "x=(f(1),undefined)?b:c;g(x)", "x=(f(1),NaN)?b:c;g(x)",
+			"x=(f(1),!0)?b:c;g(x)", "x=(f(1),!1)?b:c;g(x)", "x=(a=b,1)?c:d;g(x,a)", "x=(f(1),g(2),5)?b:c;h(x)", "(f(1),true)?g(1):h(2)", "(f(1),0)?g(1):h(2)", "x=(a++,1)?b:c;g(x,a)", "x=((f(1),1))?b:c;g(x)",
+			"function t(p){return(f(1),true)?p:2}g(t(a))", "x=[(f(1),0)?b:c];g(x)", "x=(f(1),void 0)?b:c;g(x)", "x=!(f(1),1)?b:c;g(x)", "x=(f(1),1)&&b;y=(f(2),0)||c;g(x,y)"}, hit: `x=\(f\(1\),!0\)\?b:c`},
 	{id: "loop-rewrite", doc: "js.go while(a) => for(;a;), do-while, for body", kind: 'P', t: []string{"while(a<3)a++;f(a)", "do a++;while(a<3);f(a)", "for(;;){f(1);break}", "while(true){f(1);break}", "while(1)break;f(1)", "while(0)f(1);g(2)", "do{f(1)}while(0);g(2)", "do f(1);while(a>b&&0)", "for(;true;)break", "for(;!0;){f(1);break}", "while(a){a=0}", "for(;a;)a=0;",
 		"do;while(f(1)<0)", "while(f(1),0);", "for(var i=0;i<2;i++){}f(i)", "for(var i=0;i<2;i++);f(i)", "for(var i=0;i<2;i++){f(i)}", "for(var i=0;i<2;i++){f(i);g(i)}", "for(var i=0;i<2;i++)if(a)f(i)", "while(a<3){a++;if(b)break}", "do{if(a)break;a=1}while(1)", "do var z=1;while(0);f(z)", "if(a)do f(1);while(0);else g(2)", "if(a)while(0);else g(2)"}, hit: `for\([^;]*;a<3;\)a\+\+`},
 	{id: "dead-var-after-flow", doc: "stmtlist.go optimizeStmtList: statements after return/throw/break/continue are kept (a hoisted var declaration still binds)", kind: 'P',
